@@ -122,8 +122,21 @@ def batch_event(path, cur, rnd):
     elif kind == "idx":
         m = rnd.randint(1, min(n + 2, 12))
         idx = [rnd.randrange(n) for _ in range(m)]
-        if rnd.random() < 0.4:
+        z = rnd.random()
+        if z < 0.3:
             idx = sorted(set(idx))
+        elif z < 0.65 and n >= 2:
+            # shuffled contiguous block, possibly with one element replaced by another of the block (same end points)
+            lo = rnd.randint(0, n - 2)
+            hi = rnd.randint(lo + 1, min(n - 1, lo + 6))
+            idx = list(range(lo, hi + 1))
+            mid = idx[1:-1]
+            rnd.shuffle(mid)
+            idx = [idx[0]] + mid + [idx[-1]]
+            if rnd.random() < 0.5 and len(idx) >= 4:
+                idx[rnd.randint(1, len(idx) - 2)] = rnd.choice(idx)
+            if rnd.random() < 0.3:
+                idx = idx[::-1]
         sel = np.array(idx)
         ev["pos"] = [i + 1 for i in idx]
     else:
